@@ -226,8 +226,40 @@ func (fr *Frame) copyBuiltin(c *ssa.CallCommon, args []Val, rt types.Type) Val {
 	n = vc.define("copy.n", "Int", n)
 	et := c.Args[0].Type().Underlying().(*types.Slice).Elem()
 	if vc.flatStruct(et) {
-		vc.note("copy of struct elements: contents abstracted")
-		fr.cur.heap = vc.heapHavoc(fr.cur.heap, map[string]bool{"H_" + vc.typeName(et) + ".*": true})
+		st := et.Underlying().(*types.Struct)
+		simple := true
+		for i := 0; i < st.NumFields(); i++ {
+			ft := st.Field(i).Type()
+			if vc.flatStruct(ft) {
+				simple = false
+			}
+			if _, ok := ft.Underlying().(*types.Array); ok {
+				simple = false
+			}
+		}
+		if !simple {
+			vc.note("copy of nested struct elements: contents abstracted")
+			fr.cur.heap = vc.heapHavoc(fr.cur.heap, map[string]bool{"H_" + vc.typeName(et) + ".*": true})
+			return Val{Typ: rt, L: []string{n}}
+		}
+		// element-wise copy of every field: F'[r] = F[src element] if r is a destination element, else F[r]
+		vc.elemRef(et, d.L[0], d.L[1]) // make sure elemref and its inverses are declared
+		ef := q("elemref_" + vc.typeName(et))
+		i1 := q("elemref1_" + vc.typeName(et))
+		i2 := q("elemref2_" + vc.typeName(et))
+		for i := 0; i < st.NumFields(); i++ {
+			for _, l := range vc.shape(st.Field(i).Type()) {
+				fam := vc.fieldFam(et, st.Field(i).Name()) + l.Suffix
+				vc.family(fam, famSortFor(l.Sort, 1))
+				cur := vc.lookup(fr.cur.heap, fam)
+				na := vc.fresh(fam, vc.famSort[fam])
+				r := q(vc.freshName("r"))
+				isDst := "(and (= (" + i1 + " " + r + ") " + d.L[0] + ") (<= " + d.L[1] + " (" + i2 + " " + r + ")) (< (" + i2 + " " + r + ") (+ " + d.L[1] + " " + n + ")) (= " + r + " (" + ef + " (" + i1 + " " + r + ") (" + i2 + " " + r + "))))"
+				src := "(select " + cur + " (" + ef + " " + s.L[0] + " (+ " + s.L[1] + " (- (" + i2 + " " + r + ") " + d.L[1] + "))))"
+				vc.assume(fr.curR, "(forall (("+r+" Int)) (! (= (select "+na+" "+r+") (ite "+isDst+" "+src+" (select "+cur+" "+r+"))) :pattern ((select "+na+" "+r+"))))")
+				fr.cur.heap = vc.heapSet(fr.cur.heap, fam, na)
+			}
+		}
 		return Val{Typ: rt, L: []string{n}}
 	}
 	for _, l := range vc.shape(et) {
